@@ -62,10 +62,23 @@ theorem elements_vals {src : Val} {els : List Val} (h : elements src = .ok els) 
         simp only [ticketSum, LS] at this ⊢; exact this
       · simp only [noZero] at hz
         exact (zip_pairs_vals ("", .atom .unit) keys vals).2.2 ((noZeroList_iff _).mp hz)
+  | set t xs =>
+    simp only [elements, Except.ok.injEq] at h; subst h
+    refine ⟨fun v hv => ?_, fun k => ?_, fun _ v hv => ?_⟩
+    · obtain ⟨a, _, rfl⟩ := List.mem_map.mp hv; rfl
+    · have : ∀ ys : List Atom, LS k (ys.map Val.atom) = 0 := by
+        intro ys; induction ys with
+        | nil => rfl
+        | cons y ys ih => simp only [List.map_cons, LS_cons, ticketSum, ih]
+      simp [this, ticketSum]
+    · obtain ⟨a, _, rfl⟩ := List.mem_map.mp hv; rfl
   | atom _ => simp [elements] at h
   | ticket _ _ _ _ => simp [elements] at h
   | none _ => simp [elements] at h
   | some _ => simp [elements] at h
+  | left _ _ => simp [elements] at h
+  | right _ _ => simp [elements] at h
+  | lam _ _ _ => simp [elements] at h
 
 theorem duplicate_spec {c : Cfg} (ok : CfgOk c) {v r : Val} (h : duplicate c v = .ok r) :
     r = v ∧ (v.consistent = true → ∀ k, ticketSum k v = 0) := by
